@@ -17,6 +17,8 @@ import (
 
 type c36PinnedCase struct {
 	id     string
+	format string // "" = SQL dump; csv | json | parquet: file export + table import (build = schema + data)
+	schema string // file formats: the CREATE TABLE part of build
 	build  string
 	tables map[string]string // table -> observation expression list
 	frags  bool              // compare dolt_schemas
@@ -48,6 +50,30 @@ var c36Pinned = []c36PinnedCase{
 	{id: c36FEarlyYear, what: "DATE/DATETIME values with a year below 1000 are written without zero padding ('1-01-01') and rejected on load",
 		build:  "CREATE TABLE t (pk int primary key, d date, dt datetime(6));\nINSERT INTO t VALUES (1, '0001-01-01', '0001-01-01 00:00:01.999999'), (2, '0999-12-31', '1000-01-01 00:00:00');\n",
 		tables: map[string]string{"t": "pk, CAST(d AS CHAR), CAST(dt AS CHAR)"}},
+	{id: c36FJSONExp, format: "json", what: "`dolt table import` of a JSON file misreads numbers with an exponent (1e-07 is parsed as \"1e-007\"-like text by the jstream decoder: 'strconv.ParseFloat: parsing \"1e+221\"')",
+		schema: "CREATE TABLE t (pk int primary key, d double, f float);\n",
+		build:  "CREATE TABLE t (pk int primary key, d double, f float);\nINSERT INTO t VALUES (1, 1e-7, 1.5), (2, 1e22, 1e-7), (3, 0.5, 2);\n",
+		tables: map[string]string{"t": "pk, CAST(d AS CHAR), CAST(f AS CHAR)"}},
+	{id: c36FJSONLongText, format: "json", what: "JSON export writes a TEXT value that is stored out of line as its storage wrapper ({\"Addr\":[…],\"Buf\":null}) instead of the string; the import then fails",
+		schema: "CREATE TABLE t (pk int primary key, tx longtext);\n",
+		build:  "CREATE TABLE t (pk int primary key, tx longtext);\nINSERT INTO t VALUES (1, REPEAT('a''b\\\\', 1500)), (2, 'short');\n",
+		tables: map[string]string{"t": "pk, HEX(tx)"}},
+	{id: c36FJSONBlob, format: "json", what: "JSON export writes BLOB values as base64, the JSON import stores the base64 text",
+		schema: "CREATE TABLE t (pk int primary key, b blob);\n",
+		build:  "CREATE TABLE t (pk int primary key, b blob);\nINSERT INTO t VALUES (1, 'abc'), (2, 0x00FF);\n",
+		tables: map[string]string{"t": "pk, HEX(b)"}},
+	{id: c36FParquetNull, format: "parquet", what: "`dolt table import` of a parquet file panics on a NULL in a DECIMAL column (interface conversion: interface {} is nil, not string; parquet/reader.go)",
+		schema: "CREATE TABLE t (pk int primary key, d decimal(10,2));\n",
+		build:  "CREATE TABLE t (pk int primary key, d decimal(10,2));\nINSERT INTO t VALUES (1, 1.50), (2, NULL);\n",
+		tables: map[string]string{"t": "pk, (d IS NULL), CAST(d AS CHAR)"}},
+	{id: c36FFileGenerated, format: "csv", what: "csv/json/parquet exports contain generated columns and `dolt table import` then tries to write them ('The value specified for generated column … is not allowed')",
+		schema: "CREATE TABLE t (pk int primary key, a int, g int GENERATED ALWAYS AS (a % 7) STORED);\n",
+		build:  "CREATE TABLE t (pk int primary key, a int, g int GENERATED ALWAYS AS (a % 7) STORED);\nINSERT INTO t (pk, a) VALUES (1, 10), (2, NULL);\n",
+		tables: map[string]string{"t": "pk, a, g"}},
+	{id: c36FParquetDotted, format: "parquet", what: "`dolt table import` of a parquet file silently leaves out a column whose name contains '.' (every value becomes NULL)",
+		schema: "CREATE TABLE t (pk int primary key, `c.d` int);\n",
+		build:  "CREATE TABLE t (pk int primary key, `c.d` int);\nINSERT INTO t VALUES (1, 3), (2, 4);\n",
+		tables: map[string]string{"t": "pk, `c.d`"}},
 	{id: c36FFloatMax, what: "the largest FLOAT (float32) value is written as 3.4028235e+38, which the loader rejects as out of range",
 		build:  "CREATE TABLE t (pk int primary key, f float);\nINSERT INTO t VALUES (1, 3.4028234e38), (2, -3.4028234e38), (3, 1.5);\n",
 		tables: map[string]string{"t": "pk, CAST(f AS CHAR)"}},
@@ -95,8 +121,23 @@ func TestVerif_C36_pinned(t *testing.T) {
 		p := p
 		t.Run(p.id, func(t *testing.T) {
 			fp, names := p.fingerprint()
-			for _, v := range []c36Variant{{}, {noBatch: true}} {
-				viol, skipped, err := e.rawRoundTrip(p.build, fp, names, v, false)
+			variants := []c36Variant{{}, {noBatch: true}}
+			if p.format != "" {
+				variants = variants[:1]
+			}
+			for _, v := range variants {
+				var viol, skipped string
+				var err error
+				if p.format != "" {
+					var tables []string
+					for tn := range p.tables {
+						tables = append(tables, tn)
+					}
+					sortStrings(tables)
+					viol, skipped, err = e.rawFormatRoundTrip(p.build, p.schema, tables, fp, names, p.format, false)
+				} else {
+					viol, skipped, err = e.rawRoundTrip(p.build, fp, names, v, false)
+				}
 				if err != nil {
 					vh.Inconclusive(t, "child process trouble: %v", err)
 				}
@@ -111,7 +152,11 @@ func TestVerif_C36_pinned(t *testing.T) {
 				}
 				first := strings.SplitN(viol, "\n", 2)[0]
 				if c36IsOpen(p.id) {
-					vh.ReportKnown("C36", p.id, p.what+" — dump["+v.String()+"]: "+first)
+					how := "dump[" + v.String() + "]"
+					if p.format != "" {
+						how = "dump -r " + p.format + " + table import"
+					}
+					vh.ReportKnown("C36", p.id, p.what+" — "+how+": "+first)
 					return
 				}
 				vh.NoteViolation(t.Name(), "", fmt.Sprintf("%s: %s\ndump[%s]\n%s\n--- build script ---\n%s", p.id, p.what, v, viol, p.build))
